@@ -429,8 +429,23 @@ func (m *Manager) AllocateNAT(privateIP net.IP) (*Allocation, error) {
 		return nil, fmt.Errorf("NAT pool exhausted: no available public IPs")
 	}
 
-	// Calculate port range for this subscriber (deterministic based on subscriber count)
-	portStart := uint16(m.portRangeStart + (selectedPool.Subscribers * m.portsPerSubscriber))
+	// Calculate port range for this subscriber: the first block of this public
+	// IP that no live allocation holds. (Deriving the block from the current
+	// subscriber count hands out a block that is still in use as soon as a
+	// subscriber other than the most recent one has been released.)
+	usedSlots := make(map[int]bool)
+	m.allocationMu.RLock()
+	for _, a := range m.allocations {
+		if a.PoolIndex == poolIndex {
+			usedSlots[(int(a.PortStart)-m.portRangeStart)/m.portsPerSubscriber] = true
+		}
+	}
+	m.allocationMu.RUnlock()
+	slot := 0
+	for usedSlots[slot] {
+		slot++
+	}
+	portStart := uint16(m.portRangeStart + (slot * m.portsPerSubscriber))
 	portEnd := portStart + uint16(m.portsPerSubscriber) - 1
 
 	// Get or create subscriber ID
